@@ -21,6 +21,10 @@ class Fault(Exception):
     pass
 
 
+class Cancelled(BaseException):
+    """an injected failure that is no Exception (as asyncio.CancelledError, KeyboardInterrupt): it escapes the watcher all the same"""
+
+
 CTX_KINDS = ('batch', 'discard', 'edit_constant')
 
 
@@ -79,7 +83,7 @@ class Rig:
             try:
                 if self.arm is not None and self.calls == self.arm:
                     self.fired = self.calls
-                    raise Fault(f"injected failure in watcher invocation {self.calls}")
+                    raise (Cancelled if self.R.cfg.get('base_exc') else Fault)(f"injected failure in watcher invocation {self.calls}")
                 if self.calls <= 120:
                     for act in spec['script']:
                         self.action(wid, act)
@@ -205,7 +209,7 @@ class _Run:
                 rig.open(op['kind'])
         elif k == 'close':
             if inject is not None and inject[0] == 'body':
-                exc = Fault('injected failure in context body')
+                exc = (Cancelled if self.cfg.get('base_exc') else Fault)('injected failure in context body')
                 try:
                     for _ in range(inject[2]):
                         if not rig.ctx:
@@ -231,7 +235,7 @@ class _Run:
             rig.trace.append(('OP', i, op['op']))
             try:
                 self.do_op(rig, i, op, inject)
-            except Fault:
+            except (Fault, Cancelled):
                 rig.trace.append(('FAULT',))
             except Exception as e:       # noqa  (validation errors of injected values, TypeError of constant sets)
                 rig.trace.append(('EXC', type(e).__name__))
@@ -390,7 +394,7 @@ class _Run:
             exc = None
             try:
                 self.do_op(rig, i, op, cur if cur is not None and cur[0] in ('update', 'body', 'trigger') else None)
-            except Fault:
+            except (Fault, Cancelled):
                 exc = 'Fault'
             except Exception as e:      # noqa
                 exc = type(e).__name__
@@ -551,6 +555,7 @@ class FaultsWorld:
                'p_queued': rng.choice([0.0, 0.2, 0.4]), 'p_script': rng.choice([0.0, 0.3, 0.6]),
                'continue_after': rng.random() < 0.3, 'probe_each': False,
                'fault_free': rng.random() < 0.1,
+               'base_exc': rng.random() < 0.3,
                'ctor_fault': rng.choice([None, None, None, 'range', 'type'])}
         from .dispatch_world import DispatchWorld
         dw = DispatchWorld()
